@@ -66,12 +66,14 @@ def run(ctx, replay):
     if replay:
         return corelib.replay_core(ctx, replay, c, ["cfg", "shape", "shapes", "tree"])
     apalache_inductive(ctx)
-    corelib.run_core(ctx, c, invariants=["OneFormat", "TreeOK"], properties=["Isolation", "TreeMonotone"],
+    jobs = []          # the graphs are independent: they run side by side
+    jobs.append(lambda: corelib.run_core(ctx, c, invariants=["OneFormat", "TreeOK"], properties=["Isolation", "TreeMonotone"],
                      obs=["cfg", "shape", "shapes", "tree"], rand_count=30 if ctx.quick() else 400,
-                     rand_depth=25 if ctx.quick() else 40, rand_loggers=8 if ctx.quick() else 14)
-    corelib.run_core(ctx, config_handler(ctx.quick()), invariants=["OneFormat", "TreeOK", "FlagsOK"], properties=["Isolation"],
+                     rand_depth=25 if ctx.quick() else 40, rand_loggers=8 if ctx.quick() else 14))
+    jobs.append(lambda: corelib.run_core(ctx, config_handler(ctx.quick()), invariants=["OneFormat", "TreeOK", "FlagsOK"], properties=["Isolation"],
                      obs=["cfg", "shape", "shapes"], rand_count=10 if ctx.quick() else 200, rand_depth=15 if ctx.quick() else 25,
-                     rand_loggers=3, tag="handler")
+                     rand_loggers=3, tag="handler"))
+    corelib.run_jobs(jobs)
     ctx.assumptions += ["probe records are issued with WriteThru (explicit timestamp) and classified by first byte / escape content",
                         "package default writers are redirected to recorders through GetDefaultWriter()"]
     return ctx.finish(rule="every transition of the exhaustive MC graph (3-4 loggers, all mode calls with 0..2 boolean "
